@@ -121,6 +121,7 @@ class Sim:
         self.step_cap = step_cap
         self.epoch = epoch
         self.start_dt = start_dt or _dt.datetime(2024, 3, 5, 11, 58, 41)
+        self.clock_read_cost = 0.0
         self.max_stall = max_stall
         self.now = 0.0
         self.threads = []
@@ -798,7 +799,13 @@ class datetime_shim:
     """Stands in for `datetime.datetime` where only now() is used."""
     @staticmethod
     def now(tz=None):
-        return current().datetime_now()
+        # reading the wall clock may itself take (virtual) time: two
+        # consecutive reads need not see the same instant
+        s = current()
+        v = s.datetime_now()
+        if s.clock_read_cost:
+            s.now += s.clock_read_cost
+        return v
 
     @staticmethod
     def utcfromtimestamp(ts):
